@@ -7,7 +7,7 @@ import common, gen, runner, smtlib, certify, extsolve
 THEOREMS8 = ["Osmt.Properties.C08_checked_refutation_interpolant", "Osmt.Properties.C08_labelled_interpolation_sound", "Osmt.Properties.C08_labelled_interpolation_symbols",
              "Osmt.Properties.C08_farkas_interpolant", "Osmt.Properties.C08_farkas_interpolant_B",
              "Osmt.Properties.C08_farkas_dual_interpolant", "Osmt.Properties.C08_certified_split", "Osmt.Smt.unsat_sound"]
-THEOREMS9 = ["Osmt.Properties.C09_path_from_splits", "Osmt.Properties.C08_certified_split", "Osmt.Smt.unsat_sound"]
+THEOREMS9 = ["Osmt.Properties.C09_labelled_path_step", "Osmt.Itp.system_pairOK", "Osmt.Properties.C09_path_from_splits", "Osmt.Properties.C08_certified_split", "Osmt.Smt.unsat_sound"]
 LOGICS = ["QF_UF", "QF_LRA", "QF_LIA", "QF_LRA", "QF_UF", "QF_LIA"]
 
 
@@ -342,6 +342,167 @@ def lis_case(args):
     return res
 
 
+def _ev_model(f, asg):
+    if isinstance(f, list):
+        op = smtlib.sym(f[0])
+        a, b = _ev_model(f[1], asg), _ev_model(f[2], asg)
+        return (a and b) if op == "and" else (a or b)
+    t = smtlib.sym(f)
+    if t == "tt": return True
+    if t == "ff": return False
+    return (not asg[int(t[1:])]) if t.startswith("-") else asg[int(t)]
+
+
+def _ev_smt(x, asg, vid):
+    if isinstance(x, list):
+        op = smtlib.sym(x[0]); args = [_ev_smt(y, asg, vid) for y in x[1:]]
+        if op == "and": return all(args)
+        if op == "or": return any(args)
+        if op == "not": return not args[0]
+        if op == "=>": return (not args[0]) or args[1]
+        if op == "=": return args[0] == args[1]
+        if op == "xor": return args[0] != args[1]
+        if op == "ite": return args[1] if args[0] else args[2]
+        raise ValueError(op)
+    t = smtlib.sym(x)
+    if t == "true": return True
+    if t == "false": return False
+    return asg[vid[t]]
+
+
+def path_case(args):
+    """C09 mirror: a propositional sequence request over k >= 3 groups; for every middle group the printed proof is labelled for
+    the two cuts around it, the Lean model checks that the labels fit (`labelsOK`, hypothesis of `C09_labelled_path_step`) and
+    computes both interpolants, which must equal the two printed ones."""
+    import itertools, c10
+    idx, seed, binary = args
+    rng = random.Random(f"c09-path-{seed}-{idx}")
+    alg = idx % 3
+    nv = rng.randint(3, 6)
+    vs = [f"v{i}" for i in range(nv)]
+    seen, asserts = set(), []
+    for _ in range(rng.randint(3, 7)):
+        cls = []
+        for _ in range(rng.randint(1, 3)):
+            for _try in range(20):
+                lits = tuple(sorted((v, rng.random() < 0.5) for v in rng.sample(vs, rng.randint(1, 3))))
+                if lits not in seen:
+                    seen.add(lits); cls.append(lits); break
+        if cls:
+            asserts.append(cls)
+    def ctext(c):
+        ls = [f"(not {v})" if n else v for v, n in c]
+        return ls[0] if len(ls) == 1 else "(or " + " ".join(ls) + ")"
+    def atext(cls):
+        return ctext(cls[0]) if len(cls) == 1 else "(and " + " ".join(ctext(c) for c in cls) + ")"
+    names = [f"N{i}" for i in range(len(asserts))]
+    k = rng.randint(3, min(4, len(names)))
+    perm = names[:]
+    rng.shuffle(perm)
+    cuts = sorted(rng.sample(range(1, len(names)), k - 1))
+    groups = [perm[a:b] for a, b in zip([0] + cuts, cuts + [len(names)])]
+    gof = {n: gi for gi, g in enumerate(groups) for n in g}
+    grp = lambda g: g[0] if len(g) == 1 else "(and " + " ".join(g) + ")"
+    lines = ["(set-option :print-success true)", "(set-option :produce-interpolants true)", "(set-option :produce-proofs true)",
+             f"(set-option :interpolation-bool-algorithm {alg})", "(set-logic QF_UF)"] + [f"(declare-fun {v} () Bool)" for v in vs] + \
+            [f"(assert (! {atext(c)} :named {n}))" for c, n in zip(asserts, names)] + \
+            ["(check-sat)", "(get-proof)", "(get-interpolants " + " ".join(grp(g) for g in groups) + ")"]
+    script = "\n".join(lines) + "\n"
+    res = {"idx": idx, "script": script, "problems": [], "compared": 0, "alg": alg, "k": k}
+    tp = common.WORK / f"c09-path-{os.getpid()}.trace"
+    tp.unlink(missing_ok=True)
+    out, err, rc = runner.run_opensmt(binary, script, tp, timeout=20)
+    if rc not in (0, 1) or not tp.exists():
+        tp.unlink(missing_ok=True)
+        return res
+    try:
+        outs = smtlib.parse_sexps(out)
+    except smtlib.ParseError:
+        tp.unlink(missing_ok=True)
+        return res
+    if len(outs) != len(lines) or smtlib.sym(outs[-3]) != "unsat" or modelcheck_is_error(outs[-1]) or modelcheck_is_error(outs[-2]):
+        tp.unlink(missing_ok=True)
+        return res
+    import trace as _trace
+    tr = _trace.Trace(tp)
+    tp.unlink(missing_ok=True)
+    given = []
+    for sid in tr.order:
+        for e in tr.solvers[sid].events:
+            if e[1] == "I" and e[2] not in given:
+                given.append(e[2])
+    ngiven = max(0, min(len(given) - (1 if given else 0), len(asserts)))
+    sc = smtlib.Script(script)
+    try:
+        steps, root, _ = c10.parse_proof(sc.table, outs[-2])
+    except Exception as e:
+        res["problems"].append({"what": f"printed proof unreadable: {e!r}"}); return res
+    printed = outs[-1]
+    if not isinstance(printed, list) or len(printed) != k - 1:
+        res["problems"].append({"what": f"{k} groups but {len(printed) if isinstance(printed, list) else 0} interpolants printed"}); return res
+    vid = {v: i + 1 for i, v in enumerate(vs)}
+    name_of = {sc.table.term(("sym", v)): v for v in vs}
+    group_of_clause = {}
+    for c, n in zip(asserts, names):
+        for cl in c:
+            group_of_clause[frozenset((vid[v], ng) for v, ng in cl)] = gof[n]
+    head = [f"ALG {alg}"]
+    for gi in range(k):
+        gv = sorted({vid[v] for c, n in list(zip(asserts, names))[:ngiven] if gof[n] == gi for cl in c for v, _ in cl})
+        head.append(f"GRP {gi} " + " ".join(map(str, gv)))
+    body, clauses, node_of_step = [], [], {}
+    def add(line, cl):
+        body.append(line); clauses.append(cl); return len(clauses) - 1
+    for kk, st in enumerate(steps):
+        if st[0] == "leaf":
+            try:
+                cl = frozenset((vid[name_of[t]], ng) for t, ng in st[1])
+            except KeyError:
+                return res
+            if cl not in group_of_clause:
+                return res
+            node_of_step[kk] = add(f"LEAF {group_of_clause[cl]} " + " ".join(str(-v if ng else v) for v, ng in sorted(cl)), cl)
+        else:
+            cur = node_of_step[st[1]]
+            for (j, piv) in st[2]:
+                other = node_of_step[j]
+                try:
+                    p = vid[name_of[piv]]
+                except KeyError:
+                    return res
+                pos, neg = (cur, other) if (p, False) in clauses[cur] else (other, cur)
+                newc = frozenset(l for l in clauses[pos] | clauses[neg] if l[0] != p)
+                cur = add(f"RES {pos} {neg} {p}", newc)
+            node_of_step[kk] = cur
+    body.append(f"ROOT {node_of_step[root]}")
+    for mid in range(1, k - 1):
+        inp = head + [f"MID {mid}"] + body
+        fp = common.WORK / f"c09-path-{os.getpid()}.in"
+        fp.write_text("\n".join(inp) + "\n")
+        mo = common.sh([str(common.model_exe()), "itp2", str(fp)]).stdout.strip().split("\n")
+        fp.unlink(missing_ok=True)
+        if not mo or not mo[-1].startswith("OK "):
+            res["problems"].append({"what": f"the two-cut interpolation mirror cannot process the printed proof (middle group {mid}): "
+                                            f"{mo[-1] if mo else ''}", "mirror_input": inp})
+            return res
+        f1s, f2s = mo[-1][3:].split(" | ")
+        try:
+            for which, fs, pr in ((mid - 1, f1s, printed[mid - 1]), (mid, f2s, printed[mid])):
+                formula = smtlib.parse_sexps(fs)[0]
+                for bits in itertools.product([False, True], repeat=nv):
+                    asg = {i + 1: b for i, b in enumerate(bits)}
+                    if _ev_model(formula, asg) != _ev_smt(pr, asg, vid):
+                        res["problems"].append({"what": f"algorithm {alg}: printed interpolant {which + 1} of {k - 1}, {smtlib.unparse(pr)}, differs from "
+                                                        f"the interpolant of the two-cut labelled model for the printed proof, {fs[:200]}, at {asg}",
+                                                "mirror_input": inp})
+                        return res
+            res["compared"] += 2
+        except (ValueError, KeyError) as e:
+            res["problems"].append({"what": f"printed interpolant outside the propositional fragment: {e!r}"})
+            return res
+    return res
+
+
 def modelcheck_is_error(sx):
     return isinstance(sx, list) and sx and smtlib.sym(sx[0]) == "error"
 
@@ -381,6 +542,17 @@ def run(tier, pid="C08"):
             chk.obligation(not r["problems"])
             for pr in r["problems"][:1]:
                 chk.violation("lis-mirror", pr["what"], {"script": r["script"], "problem": pr})
+    else:
+        with mp.Pool(min(common.JOBS, 14)) as pool:
+            lres = pool.map(path_case, [(i, chk.seed, binary) for i in range(150 if tier == "quick" else 4000)], chunksize=4)
+        chk.notes["path_mirror_interpolants_compared"] = sum(r["compared"] for r in lres)
+        for r in lres:
+            chk.case(key=("path", r["idx"], r["compared"]), nontrivial=r["compared"] > 0,
+                     sample={"mirror": "two-cut labelled interpolation", "algorithm": r["alg"], "groups": r["k"]}
+                     if r["compared"] and r["idx"] < 3 else None)
+            chk.obligation(not r["problems"])
+            for pr in r["problems"][:1]:
+                chk.violation("path-mirror", pr["what"], {"script": r["script"], "problem": pr})
     chk.assumptions = ["an interpolant counts as verified only when both refutations are certified by the Lean machine "
                        "(`unsat-certified`); uncertified verdicts are counted and reported, `sat` verdicts are violations only "
                        "when the model is validated by the Lean evaluator or opensmt itself answers sat"]
